@@ -4,7 +4,7 @@ package c15
 import (
 	"bytes"
 	"crypto"
-	_ "crypto/md5"
+	"crypto/md5"
 	_ "crypto/sha1"
 	_ "crypto/sha256"
 	_ "crypto/sha512"
@@ -14,6 +14,7 @@ import (
 	"io"
 	"runtime"
 	"testing"
+	"time"
 
 	"github.com/wollac/iota-crypto-demo/pkg/merkle"
 	_ "golang.org/x/crypto/blake2b"
@@ -25,7 +26,37 @@ import (
 	"verifharness/h"
 )
 
-func TestMain(m *testing.M) { h.Main(m) }
+func TestMain(m *testing.M) {
+	lateRegistration()
+	h.Main(m)
+}
+
+// lateRegistration: a Hasher for crypto.MD4 is created while no implementation is registered for that
+// identifier (nothing in this binary links x/crypto/md4); only then the harness registers one (MD5 under
+// MD4's identifier: a 16-byte digest, as crypto.MD4.Size() promises). The identifier becomes entry 17 of
+// hashes and the early Hasher is the one all cases use for it, so every sub-check also covers "the hash
+// function became available after NewHasher". A library that refuses to construct a Hasher for an
+// unavailable function is not contradicted by the statement: then the Hasher is simply created later.
+func lateRegistration() {
+	if crypto.MD4.Available() {
+		h.Note("C15: crypto.MD4 is already registered in this binary; no late registration")
+		return
+	}
+	var early *merkle.Hasher
+	func() {
+		defer func() {
+			if r := recover(); r != nil {
+				h.Note("C15: NewHasher panics for a hash function that is not registered yet (%v); the Hasher is created after registration", r)
+			}
+		}()
+		early = merkle.NewHasher(crypto.MD4)
+	}()
+	crypto.RegisterHash(crypto.MD4, md5.New)
+	hashes = append(hashes, crypto.MD4)
+	if early != nil {
+		hashers[len(hashes)-1] = early
+	}
+}
 
 // every hash function of the crypto registry that is linked in (the first four are the ones the
 // library's own tests and examples use)
@@ -143,6 +174,39 @@ type nilLeaf struct{}
 
 func (nilLeaf) MarshalBinary() ([]byte, error) { return nil, nil }
 
+// leaves whose dynamic value is nil (a nil slice, pointer, map or func of a type with a nil-safe
+// MarshalBinary): they are perfectly good BinaryMarshalers with an empty encoding
+type ptrLeaf struct{ content []byte }
+
+func (l *ptrLeaf) MarshalBinary() ([]byte, error) {
+	if l == nil {
+		return []byte{}, nil
+	}
+	return l.content, nil
+}
+
+type mapLeaf map[string][]byte
+
+func (l mapLeaf) MarshalBinary() ([]byte, error) { return l["content"], nil }
+
+type funcLeaf func() []byte
+
+func (l funcLeaf) MarshalBinary() ([]byte, error) {
+	if l == nil {
+		return nil, nil
+	}
+	return l(), nil
+}
+
+// nestedLeaf is a tree of trees: its encoding is the root of a subtree computed with the same Hasher
+// from inside MarshalBinary (Hash is re-entered on the same object, on the same goroutine)
+type nestedLeaf struct {
+	hasher *merkle.Hasher
+	sub    []encoding.BinaryMarshaler
+}
+
+func (l nestedLeaf) MarshalBinary() ([]byte, error) { return l.hasher.Hash(l.sub) }
+
 type failLeaf struct{ idx int }
 
 var errLeaf = errors.New("leaf cannot be marshalled")
@@ -186,6 +250,9 @@ func (l *decoyLeaf) GobEncode() ([]byte, error)   { return []byte("decoy:GobEnco
 func (l *decoyLeaf) MarshalJSON() ([]byte, error) { return []byte(`"decoy:MarshalJSON"`), nil }
 
 var hashers = map[int]*merkle.Hasher{}
+
+// name of the sub-check in progress (for reports that end the process)
+var curSub = "random-trees"
 
 type treeCase struct {
 	Hash   int   `json:"hash"` // index into hashes
@@ -332,13 +399,52 @@ func checkTree(c treeCase) (h.Info, error) {
 	for i := range third {
 		third[i] = data[i]
 		if len(raw[i]) == 0 {
-			third[i] = nilLeaf{}
+			switch i % 5 {
+			case 0:
+				third[i] = nilLeaf{}
+			case 1:
+				third[i] = rawLeaf(nil) // the leaf value itself is a nil slice
+			case 2:
+				third[i] = (*ptrLeaf)(nil)
+			case 3:
+				third[i] = mapLeaf(nil)
+			default:
+				third[i] = funcLeaf(nil)
+			}
 			hasEmpty = true
 		}
 	}
 	if hasEmpty {
 		if g3, err := hasher.Hash(third); err != nil || !bytes.Equal(g3, got) {
-			return info, fmt.Errorf("the same %d leaves with the empty ones marshalling to a nil slice (nil error) give %x, %v (want %x)", n, g3, err, got)
+			return info, fmt.Errorf("the same %d leaves with the empty ones given as a leaf marshalling to a nil slice / a nil slice value / a nil pointer / a nil map / a nil func (all with a nil error and an empty encoding) give %x, %v (want %x)", n, g3, err, got)
+		}
+	}
+	// a tree of trees: leaf j is replaced by a leaf whose encoding is the root of a subtree over the same
+	// Hasher, computed inside MarshalBinary; the reference hashes the subtree first
+	if n >= 2 && n <= 64 {
+		j := n / 3
+		sub := data[:1+n/2]
+		subRoot := refRoot(hf, raw[:1+n/2])
+		outerRaw := append([][]byte{}, raw...)
+		outerRaw[j] = subRoot
+		outer := append([]encoding.BinaryMarshaler{}, data...)
+		outer[j] = nestedLeaf{hasher, sub}
+		type res struct {
+			root []byte
+			err  error
+		}
+		ch := make(chan res, 1)
+		go func() {
+			r, err := hasher.Hash(outer)
+			ch <- res{r, err}
+		}()
+		select {
+		case r := <-ch:
+			if want := refRoot(hf, outerRaw); r.err != nil || !bytes.Equal(r.root, want) {
+				return info, fmt.Errorf("%d leaves of which leaf %d computes the root of a %d-leaf subtree with the same Hasher inside MarshalBinary: %x, %v; reference %x", n, j, len(sub), r.root, r.err, want)
+			}
+		case <-time.After(60 * time.Second):
+			h.FailAndExit("C15", curSub, c, fmt.Errorf("Hash did not return within 60 s: %d leaves of which leaf %d computes the root of a %d-leaf subtree with the same Hasher inside its MarshalBinary (Hash re-entered on the same Hasher)", n, j, len(sub)))
 		}
 	}
 	for _, m := range c.Probe {
@@ -387,7 +493,7 @@ func TestEveryCount(t *testing.T) {
 	}
 	h.RunEnum(t, h.Enum[countCase]{
 		Prop: "C15", Name: "every-leaf-count",
-		Rule: fmt.Sprintf("complete enumeration of every leaf count 0..%d (x hash function by rotation x 3 leaf patterns by rotation, SHA-256 for every count) plus n = 0..5 under each of the 17 linked hash functions, plus 2^k+{-2..2} for k <= 13 (quick) / 18 (thorough) and 65537, 65538, 98305, 131073 in every tier; root = iterative bottom-up reference, RFC 9162 inclusion proofs of leaves 0, n/2, k-1, k, n-1 verify; non-trivial = n >= 3 and not a power of two; distinct by construction", maxN),
+		Rule: fmt.Sprintf("complete enumeration of every leaf count 0..%d (x hash function by rotation x 3 leaf patterns by rotation, SHA-256 for every count) plus n = 0..5 under each of the 17 linked hash functions and under an identifier (crypto.MD4) whose implementation the harness registers only after the Hasher was created, plus 2^k+{-2..2} for k <= 13 (quick) / 18 (thorough) and 65537, 65538, 98305, 131073 in every tier; root = iterative bottom-up reference, RFC 9162 inclusion proofs of leaves 0, n/2, k-1, k, n-1 verify; non-trivial = n >= 3 and not a power of two; distinct by construction", maxN),
 		Each: func(yield func(countCase) bool) {
 			for n := 0; n <= maxN; n++ {
 				if !yield(countCase{n, 0, n % 3}) {
@@ -434,7 +540,9 @@ func TestEveryCount(t *testing.T) {
 				k *= 2
 			}
 			tc := treeCase{Hash: c.Hash, Leaves: patternLeaves(n, c.Variant), Probe: []int{0, n / 2, k - 1, k, n - 1}}
+			curSub = "every-leaf-count"
 			info, err := checkTree(tc)
+			curSub = "random-trees"
 			if err != nil {
 				return info, fmt.Errorf("n=%d hash=%d variant=%d: %w", c.N, c.Hash, c.Variant, err)
 			}
